@@ -195,10 +195,16 @@ func openChan(k string, base p2p.Swarm[memswarm.Addr]) func(c string) p2p.Swarm[
 		return func(c string) p2p.Swarm[memswarm.Addr] { n, _ := strconv.ParseUint(c, 10, 64); return m.Open(n) }
 	case "u16":
 		m := p2pmux.NewUint16Mux[memswarm.Addr](base)
-		return func(c string) p2p.Swarm[memswarm.Addr] { n, _ := strconv.ParseUint(c, 10, 16); return m.Open(uint16(n)) }
+		return func(c string) p2p.Swarm[memswarm.Addr] {
+			n, _ := strconv.ParseUint(c, 10, 16)
+			return m.Open(uint16(n))
+		}
 	case "u32":
 		m := p2pmux.NewUint32Mux[memswarm.Addr](base)
-		return func(c string) p2p.Swarm[memswarm.Addr] { n, _ := strconv.ParseUint(c, 10, 32); return m.Open(uint32(n)) }
+		return func(c string) p2p.Swarm[memswarm.Addr] {
+			n, _ := strconv.ParseUint(c, 10, 32)
+			return m.Open(uint32(n))
+		}
 	case "u64":
 		m := p2pmux.NewUint64Mux[memswarm.Addr](base)
 		return func(c string) p2p.Swarm[memswarm.Addr] { n, _ := strconv.ParseUint(c, 10, 64); return m.Open(n) }
